@@ -277,9 +277,15 @@ class Session:
         for rel, (rank, content) in files.items():
             p = os.path.join(self.proj, rel)
             os.makedirs(os.path.dirname(p), exist_ok=True)
+            t = rank_ns(rank)
+            if isinstance(content, (tuple, list)) and content and content[0] == "symlink":
+                if os.path.lexists(p):
+                    os.remove(p)
+                os.symlink(content[1], p)  # content = ("symlink", target relative to the link's directory)
+                os.utime(p, ns=(t, t), follow_symlinks=False)
+                continue
             with open(p, "w") as f:
                 f.write(content)
-            t = rank_ns(rank)
             os.utime(p, ns=(t, t))
 
     def set_file(self, rel, content=None):
@@ -467,6 +473,12 @@ class Session:
                     elif sub == "spec-hashes.json":
                         hashes = _read_json(p)
                     # any other file under .gwf/ is gwf's private business (lock files, caches ...): not a workflow file, not a log
+                    continue
+                if os.path.islink(p):
+                    st = os.lstat(p)
+                    off = st.st_mtime_ns - BASE * 10**9
+                    rank = off // STEP_NS if off % STEP_NS == 0 and 0 <= off < STEP_NS * 10**7 else ("fresh", st.st_mtime_ns)
+                    files[rel] = (rank, ("symlink", os.readlink(p)))
                     continue
                 st = os.stat(p)
                 off = st.st_mtime_ns - BASE * 10**9
